@@ -23,6 +23,20 @@ VALID_NAME = re.compile(r'\A[0-9a-f]{96}\Z')     # the harness' own definition o
 # environment
 # ---------------------------------------------------------------------------------------------------
 
+_frozen = False
+
+
+def freeze_heap_once():
+    """The imported product modules hold ~10^6 long-lived objects; every deterministic `gc.collect()`
+    (one per incarnation) would rescan them (~40 ms).  Freeze them once per worker process."""
+    global _frozen
+    if not _frozen:
+        import gc
+        gc.collect()
+        gc.freeze()
+        _frozen = True
+
+
 def patch_sqlite_executors():
     """No thread / process is ever created: AIOSQLite's executors become inert tokens and every job
     runs inline through SimLoop.run_in_executor (one job = one complete sqlite transaction)."""
@@ -192,8 +206,14 @@ async def download_blob(blob_manager, data: bytes, chunks=1, is_mine=False, wait
         return blob, 'exists'
     n = max(1, min(chunks, len(data)))
     step = (len(data) + n - 1) // n
-    for i in range(0, len(data), step):
-        writer.write(data[i:i + step])
+    try:
+        for i in range(0, len(data), step):
+            writer.write(data[i:i + step])
+    except OSError:
+        # e.g. "unknown blob length": BlobFile.__init__ found a stale file of another size, removed it and
+        # forgot the length it was given; a real download fails the same way and is retried
+        writer.close_handle()
+        return blob, 'write_error'
     if wait:
         await blob.verified.wait()
     return blob, 'written'
